@@ -8,7 +8,8 @@ import warnings
 INF = 99
 XS = "http://www.w3.org/2001/XMLSchema"
 TNS = "urn:T"
-SYM_XML = {"o": '<o:o xmlns:o="urn:O"/>', "u": "<u/>"}
+SYM_XML = {"o": '<o:o xmlns:o="urn:O"/>', "u": "<u/>", "z": '<z:z xmlns:z="urn:Z"/>'}
+NOTNS = {"nO": "urn:O", "nT": "##targetNamespace", "nOl": "urn:O ##local"}      # XSD 1.1 notNamespace
 WILD = {"any": "##any", "other": "##other", "tns": "##targetNamespace", "local": "##local",
         "tl": "##targetNamespace ##local", "oo": "urn:O", "ol": "urn:O ##local"}
 
@@ -34,6 +35,8 @@ def particle_xsd(m, p, variant, groups_out):
         return f'<xs:element name="{x}" type="{typ}" id="{pid}"{occ(mn, mx)}/>'
     if kind == "h":
         return f'<xs:element ref="t:{x}" id="{pid}"{occ(mn, mx)}/>'
+    if kind == "w" and x in NOTNS:
+        return f'<xs:any notNamespace="{NOTNS[x]}" processContents="lax" id="{pid}"{occ(mn, mx)}/>'
     if kind == "w":
         return f'<xs:any namespace="{WILD[x]}" processContents="lax" id="{pid}"{occ(mn, mx)}/>'
     tag = {"s": "sequence", "c": "choice", "a": "all"}[kind]
